@@ -22,10 +22,13 @@ CLAIMED = {
             "the flat domains' join tables send unequal operands to Top / keep the taint (R3); IntervalDomain::signed_merge re-validates both operands' widening hints (R3); each DomainMap merge strategy treats keys missing on one side as its documentation "
             "states (R5). The numeric join of two intervals (signed_merge_and_widen, stride gcd) is not decided.",
             "3/C03", ""),
-    "C04": ("delegation/field-effect analysis of `impl SpecializeByConditional for DataDomain<T>`: resolved callee names, write sets, and an implication test between the path condition of every Err result and the literal set of DataDomain::is_empty",
-            "Decides the DataDomain wrapper only: each add_*_bound refines the absolute part with the SAME-named method of the value domain and the caller's bound (R1), touches no other field (R2), and reports 'unsatisfiable' only "
-            "under a condition that implies emptiness of the whole value, tested after the update; is_empty tests every value-carrying field (R3). The numeric refinement of intervals (IntervalDomain::add_*_bound, stride rounding, "
-            "signed_intersect and its residue classes) quantifies over members x bounds and is NOT decided -- the seeded change for this property (rounding near the signed maximum) is such a case and is not detected.",
+    "C04": ("delegation/field-effect analysis of `impl SpecializeByConditional for DataDomain<T>` (resolved callee names, write sets, implication test between the path condition of every Err result and the literal set of DataDomain::is_empty); "
+            "type-resolved def-use/sign flow over the integer arithmetic of the interval modules (signed `%` results must be normalised before comparison / unsigned cast; unsigned-tagged bitvectors must not be signed addends)",
+            "Decides (a) the DataDomain wrapper: each add_*_bound refines the absolute part with the SAME-named method of the value domain and the caller's bound (R1), touches no other field (R2), and reports 'unsatisfiable' only "
+            "under a condition that implies emptiness of the whole value, tested after the update; is_empty tests every value-carrying field (R3); and (b) the sign discipline of the residue-class and stride-rounding arithmetic behind "
+            "intersect and add_*_bound (R4, R5) -- a necessary condition for negative interval members / large strides to stay in the right residue class; this part found three genuine defects (fixed). "
+            "The remaining numeric content of the refinement (which bound is compared with which, off-by-one at the bounds, overflow near the signed extremes) quantifies over members x bounds and is NOT decided -- the seeded change for this "
+            "property (rounding near the signed maximum) is such a case and is not detected.",
             "3/C04", ""),
     "C05": ("field-visibility facts + enumeration of all mutation sites of the cell map by resolved receiver; per-insert justification analysis (dominating clear_interval with matching position/size, same-key replacement, overlap guards, uniform shift; !is_top guard, non-top-returning helper summary, copy, following clear_top_values); crate-wide callers of the mutable iterator",
             "Decides the store discipline that keeps an abstract memory region a set of non-overlapping, non-Top cells: the cell map is private and only written in mem_region.rs (R1); no insert can store Top (R2); "
